@@ -38,6 +38,8 @@ type Spec struct {
 	Web      bool   // build the HTTP router (process-global in inbucket: one at a time)
 	History  int    // monitor history length (0 = 30)
 	NoHub    bool
+	// PreLua / PostLua register Go listeners before / after the Lua host registers its own.
+	PreLua, PostLua func(*extension.Host) `json:"-"`
 }
 
 // DefaultSMTP is a permissive SMTP configuration.
@@ -83,12 +85,18 @@ func New(spec Spec) *Sys {
 		conf.Web.MonitorHistory = 30
 	}
 	s := &Sys{Spec: spec, Conf: conf, Ext: extension.NewHost()}
+	if spec.PreLua != nil {
+		spec.PreLua(s.Ext)
+	}
 	if spec.Lua != "" {
 		lh, err := luahost.NewFromReader(zerolog.Nop(), s.Ext, strings.NewReader(spec.Lua), "verif.lua")
 		if err != nil {
 			panic("VERIF-INFRA lua: " + err.Error())
 		}
 		s.Lua = lh
+	}
+	if spec.PostLua != nil {
+		spec.PostLua(s.Ext)
 	}
 	s.StoreH = NewStore(spec.Store, s.Ext)
 	s.Policy = &policy.Addressing{Config: conf}
